@@ -153,6 +153,33 @@ class Taint(object):
         return out
 
 
+def wiped_fields(ctx, b, owner, depth=0):
+    """names of the fields of `self` that body b hands to a zeroize call: field by field (`self.f.zeroize()`), or wholesale through the
+    type's own Zeroize impl (`fn drop(&mut self) { self.zeroize() }`)"""
+    wiped = set()
+    for bb, t in ctx.calls(b):
+        if 'zeroize' not in callee_decl(t).split('::')[-1]:
+            continue
+        for a in ctx.args(b, bb):
+            a0 = a
+            while a0.tag in ('mut', 'via'):
+                a0 = a0[1] if a0.tag == 'mut' else a0[2]
+            if a0.tag == 'param' and a0[1] == b.key and a0[2] == 1 and depth < 2:
+                # the whole object: whatever its Zeroize impl wipes
+                zs = [z for z in ctx.facts.fns() if z.impl_trait == 'zeroize::Zeroize' and (z.impl_self or '').split('<')[0] == owner and z.path.endswith('::zeroize')]
+                if zs and zs[0].key != b.key:
+                    wiped |= wiped_fields(ctx, zs[0], owner, depth + 1)
+                continue
+            for x in walk(a):
+                if x.tag == 'field':
+                    base = x[2]
+                    while base.tag in ('mut', 'via'):
+                        base = base[1] if base.tag == 'mut' else base[2]
+                    if base.tag == 'param':
+                        wiped.add(x[1])
+    return wiped
+
+
 def run(ctx):
     rep = ctx.rep
     facts = ctx.facts
@@ -176,13 +203,7 @@ def run(ctx):
                 continue
             b = hits[0]
             rep.saw_body(b)
-            wiped = set()
-            for bb, t in ctx.calls(b):
-                if 'zeroize' in callee_decl(t).split('::')[-1]:
-                    for a in ctx.args(b, bb):
-                        for x in walk(a):
-                            if x.tag == 'field' and x[2].tag == 'param':
-                                wiped.add(x[1])
+            wiped = wiped_fields(ctx, b, owner)
             want = [f['name'] for f in fields] if owner != 'range_statement::RangeStatement' else ['seed_nonce']
             for f in want:
                 rep.check(f in wiped, 'R-C20-1', 'R-C20-1/%s/%s/%s' % (owner, trait, f), '<%s as %s>::%s wipes field %s' % (owner, trait, meth, f),
